@@ -456,17 +456,18 @@ Import Irismod.Htlc.Model Irismod.Htlc.Proofs Irismod.Queues.LinkHtlc.
     numbers; related contracts agree on state, expiration height, closing block, transfer flag
     and number of coins; the heights agree). *)
 Theorem htlc_link_step :
-  forall fs qs tbl o, Inv fs -> Strict fs -> wf_op o -> R fs qs tbl -> QP.QInv qs ->
+  forall fs qs tbl o, Inv fs -> Strict fs -> wf_op fs o -> R fs qs tbl -> QP.QInv qs ->
     exists qops tbl', Forall QP.op_clean qops /\ R (step fs o) (Q.run qs qops) tbl' /\ QP.QInv (Q.run qs qops).
 Proof. exact sim_step. Qed.
 Print Assumptions htlc_link_step.
 
-(** Every history of the full model (valid parameters, empty escrow at genesis, no module
-    account as sender or receiver — satisfiable: [Htlc/Examples.v]) is mirrored by a clean
+(** Every history of the full model — parameter changes included; [wf_run]: valid parameters, empty
+    escrow at genesis, no module account signs a create message, an ACCEPTED parameter change is
+    compatible with the current usage (satisfiable: [Htlc/Examples.v]) — is mirrored by a clean
     history of the queue model, to which [H.htlc_queue_hygiene] and
     [H.processed_exactly_once_htlc] therefore apply. *)
 Theorem htlc_link_simulation :
-  forall P b t0 ops, params_ok P -> escrow_empty b -> Forall wf_op ops ->
+  forall P b t0 ops, params_ok P -> escrow_empty b -> wf_run (init P b t0) ops ->
     exists qops tbl, Forall QP.op_clean qops /\ R (reachable P b t0 ops) (Q.run (Q.init 1) qops) tbl.
 Proof. exact Irismod.Queues.LinkHtlc.htlc_link_simulation. Qed.
 Print Assumptions htlc_link_simulation.
